@@ -2,6 +2,7 @@
 updates; ring order over histories follows on paper from these)."""
 
 from .common import *
+from . import excl
 from ..pm import pmatch, pat
 
 REL = "transactron/lib/allocators.py"
@@ -30,6 +31,7 @@ def check_allocator(ctx, pid="C27"):
     for ex in comp.configs:
         cn = cfg_name(ex)
         al, fr, cl = (need_body(ex, n, pid, comp.site) for n in ("alloc", "free", "clear"))
+        excl.exclusive(ctx, pid, "CircularAllocator", al, fr)
         # occupancy update
         t = decision_table(ex, ALLOC, sync=True)
         plain = [w for w in t.writers if w.guard is True]
@@ -157,9 +159,18 @@ def check_mod_add(ctx, pid="C27"):
             # decided by bounded agreement with (sig + incr) % mod for mod in powers of two
             val = strip_casts(ex, r.value)
             ref = ("op", "%", ("op", "+", incr, sig), mod)
-            check_agree(ctx, f"{pid}.mod-add-pow2", r.site, "mod_add.power-of-two", val, ref, {mod: [1, 2, 4, 8]}, {sig: (0, ("op", "-", mod, ("c", 1))), incr: (0, 3)},
-                        "for a power-of-two modulus the masked sum is the modular sum")
-            ok_guard = pow2 is not None and pmatch("not (Q_m & (Q_m - 1))", pow2) is not None or True
+            from ..logic import NotEvaluable, evalt
+
+            try:
+                sel = [mm for mm in range(1, 17) if all(bool(evalt(t, {mod: mm})) == v for t, v in ex.config)]
+            except NotEvaluable as e:
+                raise AnalysisError(pid, r.site, f"mod_add: cannot evaluate the branch test ({e})")
+            if sel:
+                check_agree(ctx, f"{pid}.mod-add-pow2", r.site, "mod_add.power-of-two", val, ref, {mod: sel}, {sig: (0, ("op", "-", mod, ("c", 1))), incr: (0, 3)},
+                            "for every modulus that selects the masking shortcut the masked sum is the modular sum")
+            from .modarith import shortcut_only_for_powers_of_two
+
+            shortcut_only_for_powers_of_two(ctx, f"{pid}.mod-add-pow2-guard", r.site, "mod_add.power-of-two.guard", ex, mod)
             n_ok += 1
         else:
             m = pmatch("SwitchValue(Q_x, Q_cases)", strip_casts(ex, r.value))
